@@ -816,6 +816,111 @@ def run_mixed(c):
     return ck.result()
 
 
+
+# --------------------------------------------------------------------------------------------- collections of 3D subspaces
+@st.composite
+def s3c_case(draw, tier="quick"):
+    k = draw(st.integers(2, 4))
+    return {"kind": draw(st.sampled_from(["line", "line", "plane"])), "members": [{"shape": draw(st.sampled_from(["generic", "axis-x", "axis-y", "axis-z", "origin", "origin-axis"])), "v": [draw(C.ints(6)) for _ in range(9)],
+                                                                             "s": draw(C.scale())} for _ in range(k)], "grid": draw(st.booleans())}
+
+
+def run_s3c(c):
+    """base_point / direction / basis_matrix / general_point of a LineCollection or PlaneCollection of 3-space whose members have
+    different special positions (through the origin, parallel to a coordinate axis, generic): every position meets the definition
+    for its own member"""
+    kind = c["kind"]
+    arrs, geo = [], []
+    AX = {"axis-x": (1.0, 0.0, 0.0), "axis-y": (0.0, 1.0, 0.0), "axis-z": (0.0, 0.0, 1.0)}
+    for mb in c["members"]:
+        v = mb["v"]
+        a, d, e = np.array(v[0:3], float), np.array(v[3:6], float), np.array(v[6:9], float)
+        sh = mb["shape"]
+        if sh in AX:
+            d = np.array(AX[sh]) * (d[0] if d[0] else 1.0)
+        elif sh == "origin":
+            a = np.zeros(3)
+        elif sh == "origin-axis":
+            a, d = np.zeros(3), np.array([0.0, 0.0, 1.0]) * (d[2] if d[2] else 2.0)
+        elif sh != "generic":
+            raise Skip("malformed")
+        if not np.any(d):
+            raise Skip("zero direction")
+        sc = C.scale_value(mb["s"])
+        if kind == "line":
+            arrs.append(np.asarray(Z.plucker_dual(list(a) + [1], list(a + d) + [1]), float) * sc / 4)
+            geo.append((a, [d]))
+        else:
+            if np.linalg.matrix_rank(np.stack([d, e])) < 2:
+                raise Skip("degenerate plane")
+            nrm = np.cross(d, e)
+            arrs.append(np.append(nrm, -np.dot(nrm, a)) * sc)
+            geo.append((a, [d, e]))
+    k = len(arrs)
+    A = np.stack(arrs)
+    shape = (k,)
+    if c["grid"] and k == 4:
+        shape = (2, 2)
+        A = A.reshape(shape + A.shape[1:])
+    S = (LineCollection if kind == "line" else PlaneCollection)(A)
+    singles = [(Line if kind == "line" else Plane)(x) for x in arrs]
+    ck = Checker()
+    tag = f"{kind}3-collection" + (":grid" if len(shape) > 1 else "")
+
+    def rows(x, extra):
+        arr = np.asarray(getattr(x, "array", x))
+        if not ck.check(arr.shape[: len(shape)] == shape and arr.ndim == len(shape) + extra, tag + ":result-shape", (arr.shape, shape)):
+            return None
+        return arr.reshape((k,) + arr.shape[len(shape):])
+
+    bm, f = call(tag + ":basis_matrix", lambda: S.basis_matrix)
+    if f:
+        ck.add(f)
+    else:
+        B = rows(bm, 2)
+        if B is not None:
+            for j in range(k):
+                want = 2 if kind == "line" else 3
+                ok = ck.check(B[j].shape == (want, 4) and np.allclose(B[j] @ B[j].conj().T, np.eye(want), atol=1e-9), tag + ":basis_matrix:orthonormal", (j, c["members"][j]["shape"]))
+                if ok:
+                    for r in B[j]:
+                        cc, f = call(tag + ":contains", singles[j].contains, Point(r))
+                        if f is None:
+                            ck.check(bool(cc), tag + ":basis_matrix:spans-member", (j, c["members"][j]["shape"], r.tolist()))
+    gp, f = call(tag + ":general_point", lambda: S.general_point)
+    if f:
+        ck.add(f)
+    else:
+        Gp = rows(gp, 1)
+        if Gp is not None:
+            for j in range(k):
+                cc, f = call(tag + ":contains", singles[j].contains, Point(Gp[j]))
+                if f is None:
+                    ck.check(not bool(cc), tag + ":general_point:outside-member", (j, c["members"][j]["shape"], Gp[j].tolist()))
+    if kind == "line":
+        bp, f = call(tag + ":base_point", lambda: S.base_point)
+        if f:
+            ck.add(f)
+        else:
+            Bp = rows(bp, 1)
+            if Bp is not None:
+                for j in range(k):
+                    if ck.check(abs(Bp[j][-1]) > 1e-9 * np.max(np.abs(Bp[j])), tag + ":base_point:finite", (j, c["members"][j]["shape"], Bp[j].tolist())):
+                        cc, f = call(tag + ":contains", singles[j].contains, Point(Bp[j]))
+                        if f is None:
+                            ck.check(bool(cc), tag + ":base_point:on-member", (j, c["members"][j]["shape"], Bp[j].tolist()))
+        dr, f = call(tag + ":direction", lambda: S.direction)
+        if f:
+            ck.add(f)
+        else:
+            Dr = rows(dr, 1)
+            if Dr is not None:
+                for j in range(k):
+                    d = geo[j][1][0]
+                    ck.check(abs(Dr[j][-1]) < 1e-9 * np.max(np.abs(Dr[j])) and C.peq_all(Dr[j][:3], d, 1, 1e-9), tag + ":direction", (j, c["members"][j]["shape"], Dr[j].tolist(), d.tolist()))
+    return ck.result()
+
+
 LAWS = [
     Law("line2d", lambda tier: l2_case(tier), run_l2, l2_nontrivial, l2_labels, {"quick": 1500, "thorough": 30000},
         "2D line: perpendicular/parallel/project/mirror + base_point/direction/basis_matrix/general_point", shard=300, mandatory=("point-on-line", "mixed-mask", "vertical", "origin")),
@@ -823,6 +928,10 @@ LAWS = [
         {"quick": 600, "thorough": 10000}, "real 2D line, points with Gaussian-integer coordinates: mirror (involution), project, perpendicular by the bilinear formulas", shard=300),
     Law("subspace3d", lambda tier: s3_case(tier), run_s3, lambda c: c["shape"] != "generic" or "on" in c["where"][: max(1, c["n"])], s3_labels, {"quick": 1200, "thorough": 25000},
         "3D line / plane: perpendicular/parallel/project/mirror + helpers", shard=200, mandatory=("point-on-subspace", "mixed-mask")),
+    Law("subspace3d_collections", lambda tier: s3c_case(tier), run_s3c, lambda c: len({m["shape"] for m in c["members"]}) > 1,
+        lambda c: [c["kind"]] + (["origin+axis-parallel"] if any(m["shape"].startswith("origin") for m in c["members"]) and any(m["shape"].startswith("axis") for m in c["members"]) else []) + (["grid"] if c["grid"] and len(c["members"]) == 4 else []),
+        {"quick": 800, "thorough": 15000}, "LineCollection / PlaneCollection of 3-space mixing members through the origin, parallel to an axis and generic: base_point, direction, basis_matrix, general_point per position", shard=200,
+        mandatory=("origin+axis-parallel", "grid")),
     Law("predicates_mixed_collections", lambda tier: mixed_case(tier), run_mixed, lambda c: len({p["mode"] for p in c["pos"]}) > 1,
         lambda c: [c["what"]] + sorted({p["mode"] for p in c["pos"]}), {"quick": 800, "thorough": 15000},
         "is_collinear/is_concurrent (4 arguments) and is_coplanar (5 arguments) on collections whose positions have different truth values", shard=300),
